@@ -185,7 +185,7 @@ theorem parsePolyBody_polyBody (hC : C.Laws) (s : PolySpec) (hs : s.wf = true) (
         have hne' : (s.exp1 == s.exp2) = false := by simpa using hne
         have hdne' : (s.dim1 == s.dim2) = false := by simpa using hdne
         have hrect : ∀ r ∈ rows, r.length = lenOf r0 := fun r hr => (c3 r hr).1
-        have hplace : place (List.replicate (rows.length * lenOf r0) C.zero) (enumRows (lenOf r0) 0 rows) = some rows.flatten := by
+        have hplace : place (List.replicate (rows.length * lenOf r0) (C.constVal s.fill)) (enumRows (lenOf r0) 0 rows) = some rows.flatten := by
           rw [enumRows_eq _ rows 0 hrect, Nat.zero_mul, ← length_flatten_rect _ rows hrect]
           exact place_enum_zero _ _
         simp only [parsePolyBody, polyBody, htwo, c1, if_true, XmlNode.children, hf, ← hd1, ← hd2, hw,
@@ -265,7 +265,7 @@ theorem polyOfDict_polyToDict (s : PolySpec) (v : Val P S) (hv : wfPoly C s v = 
 def readCoefs1 (s : PolySpec) (n : Nat) (chs : List (XmlNode S)) : Option (List P) :=
   match mapOpt (parseCoef1 C s) chs with
   | none => none
-  | some es => place (List.replicate n C.zero) es
+  | some es => place (List.replicate n (C.constVal s.fill)) es
 
 theorem mapOpt_perm {α β : Type} (f : α → Option β) {a b : List α} (hp : a.Perm b) :
     ∀ a', mapOpt f a = some a' → ∃ b', mapOpt f b = some b' ∧ a'.Perm b' := by
@@ -324,7 +324,7 @@ theorem readCoefs1_perm (hC : C.Laws) (s : PolySpec) (he : s.exp1 = s.pExp1) (cs
 theorem readCoefs1_sparse (hC : C.Laws) (s : PolySpec) (he : s.exp1 = s.pExp1) (cs : List P) (hok : ∀ x ∈ cs, C.ok s.prim x = true) :
     (match mapOpt (parseCoef1 (S := S) C s) (coefNodes1 C s 0 cs) with
      | none => none
-     | some es => place (List.replicate cs.length C.zero) (es.filter (fun e => !(C.peq e.2 C.zero)))) = some cs := by
+     | some es => place (List.replicate cs.length (C.constVal s.fill)) (es.filter (fun e => !(C.peq e.2 (C.constVal s.fill))))) = some cs := by
   rw [mapOpt_parseCoef1 (S := S) C hC s he cs 0 hok]
   have hnd : ((enumFrom' 0 cs).map (·.1)).Nodup := by
     rw [enumFrom'_map_fst]; exact List.nodup_range'
@@ -335,10 +335,10 @@ theorem readCoefs1_sparse (hC : C.Laws) (s : PolySpec) (he : s.exp1 = s.pExp1) (
     simp [List.mem_range'] at this
     omega
   show place _ _ = some cs
-  rw [place_drop_fill C.zero _ _ _ hnd (by simpa using hmem)
+  rw [place_drop_fill (C.constVal s.fill) _ _ _ hnd (by simpa using hmem)
     (fun e he' => by simp [hmem e he'])
     (fun e _ hk => by
-      have : C.peq e.2 C.zero = true := by simpa using hk
+      have : C.peq e.2 (C.constVal s.fill) = true := by simpa using hk
       exact (hC.peq _ _).1 this)]
   exact place_enum_zero _ _
 
